@@ -116,6 +116,30 @@ def run_property(prop: str, tier: str, root: str, seed: int, write_evidence: boo
                 known_hits.append((f, k))
             else:
                 violations.append(f)
+    # second pass: a finding whose construct differs from a listed one only by the NAMES of local
+    # variables (the function was touched by a rename) is still that listed finding.  One-to-one: each
+    # listed entry absorbs at most one finding, and only entries that no finding matched exactly —
+    # a second, different site with a similar shape is still reported.
+    if violations:
+        from .index import alpha_eq
+
+        used = {id(k) for _f, k in known_hits}
+        rest = []
+        for f in violations:
+            hit = None
+            for k in known.get("known", []):
+                props_ = k.get("properties") or [k.get("property")]
+                if prop not in props_ or id(k) in used:
+                    continue
+                if (k["rule"], k["file"], k["function"]) == (f.rule, f.file, f.func) and k["construct"] != f.construct and alpha_eq(k["construct"], f.construct):
+                    hit = k
+                    break
+            if hit is not None:
+                used.add(id(hit))
+                known_hits.append((f, hit))
+            else:
+                rest.append(f)
+        violations = rest
     if tier == "thorough" and not violations and not os.environ.get("SA_NO_SELFTEST"):
         # self-validation of this property's rules on scratch copies (DESIGN §6);
         # only meaningful when the tree itself is clean
